@@ -180,8 +180,7 @@ func (e *Encoder) writeList(data interface{}) (int, error) {
 func (d *Decoder) ReadList(flag int32) (interface{}, error) {
 	tag, err := getTag(d.reader, flag)
 	if err != nil {
-		hlog.Debugf("reading tag err:%v", err)
-		return nil, nil //ignore
+		return nil, newCodecError("ReadList", "reading tag", err)
 	}
 
 	if binaryTag(tag) {
